@@ -225,6 +225,8 @@ class Gen:
             body.append(rng.choice([['yinf'], ['yinf'], ['yend', True], ['yend', False],
                                     ['yend', 'x']]))
         R['body'] = body
+        if 'ahead' in self.features and depth > 0 and ci == SYS and rng.random() < 0.25:
+            R['ahead'] = rng.choice([0, 1 / 1024, 3 / 1024, 8 / 1024])
         return R
 
     def embedded(self, rid, ci, free, level):
@@ -479,6 +481,10 @@ class Run:
         elif R['clock'] >= 0:
             st['exp_beats'] = clock.beats       # == what play(quant=0) will schedule at
             st['exp_secs'] = None
+        elif R.get('ahead') is not None and R['clock'] == SYS:
+            # started with sched_abs at a time point a little ahead of the parent's
+            # logical time (in real time that is usually the physical past already)
+            st['exp_secs'] = parent_secs + R['ahead']
         else:
             st['exp_secs'] = parent_secs
         self.sts[R['id']] = st
@@ -500,6 +506,9 @@ class Run:
                 rout = self.stm.Routine.run(body, clock, q)
             else:
                 rout = self.stm.routine.run(clock, q)(body)
+        elif R.get('ahead') is not None and R['clock'] == SYS:
+            rout = self.stm.Routine(body)
+            clock.sched_abs(parent_secs + R['ahead'], rout)
         else:
             if form in (0, 1):
                 rout = self.stm.Routine(body)
